@@ -3,7 +3,6 @@ package props
 // NotApplicable lists the properties that are not claimed, with the reason.
 // An entry is removed when a rule table for the property is registered.
 var NotApplicable = map[string]string{
-	"C20": "Round-trip and monotonicity over the 2^32 compact domain are arithmetic facts about big.Int code with no path-shape component; deciding them statically would be symbolic execution, a different technique family.",
 }
 
 // Pending lists properties whose rule tables are designed (DESIGN.md §4) but not
